@@ -1,6 +1,7 @@
 (* C03 - the aspif reader accepts exactly well-formed aspif and never alters a number.  Statements only.
    Declarative description: C03/Spec.v (abstract program with unbounded integer fields + layout, render, in_range, calls). *)
-Require Import V.Lib.Base V.Lib.Calls V.Lib.Contract V.C09.Spec V.C01.Read V.C01.Wf V.C01.ProofsPrim V.C03.Spec V.C03.ProofsSpec V.C03.ProofsProg V.C03.ProofsInv V.C03.ProofsContract.
+Require Import V.Lib.Base V.Lib.Calls V.Lib.Contract V.C09.Spec V.C01.Read V.C01.Wf V.C01.ProofsPrim V.C03.Spec V.C03.ProofsSpec V.C03.ProofsProg V.C03.ProofsInv V.C03.ProofsContract
+  V.C03.Grammar V.C03.ProofsG5 V.C03.ProofsG6 V.C03.ProofsG8 V.C03.ProofsG9.
 Local Open Scope Z_scope.
 
 (* every text that is the rendering of an in-range program - under EVERY layout - is accepted and delivers exactly the denoted calls *)
@@ -62,9 +63,98 @@ Theorem c03_accepted_trace : forall t cs, read_all t = (cs, Ok) -> wf_trace cs /
 Proof. exact accepted_trace. Qed.
 Print Assumptions c03_accepted_trace.
 
-(* NOT delivered: c03_sound (accepted -> the text is the rendering of some in-range program) and c03_truncated.  What is proved in
-   their direction: c03_rejects for every rendering with a field / code / step count out of range, and c03_accepted_trace +
-   c03_delivers_wf for arbitrary texts (nothing out of range is ever delivered). *)
+(* ==== the GENERAL description C03/Grammar.v (gprog: abstract program with unbounded integer fields + the most liberal layout:
+   "-0", "+0", leading zeros, tokens glued by a sign ("1+2-3"), nothing required after a raw string or a line end, any single byte or
+   CR LF as string separator, comment lines, CR / LF / CRLF, any revision, body code 2, anything after a NUL) ==== *)
+
+(* SOUNDNESS, for EVERY byte list: an accepted text IS the rendering of a well-formed program all of whose fields are in range
+   (so: every announced count is matched by its elements, every code is known, exactly one step unless incremental), and the
+   delivered calls are precisely the calls that program denotes *)
+Theorem c03_sound : forall t cs, read_all t = (cs, Ok) ->
+  exists a, gwf a = true /\ gin_range a = true /\ t = grender a /\ cs = gcalls a.
+Proof. exact g_sound. Qed.
+Print Assumptions c03_sound.
+
+(* COMPLETENESS for the general description, every layout *)
+Theorem c03_complete_general : forall a, gwf a = true -> gin_range a = true -> read_all (grender a) = (gcalls a, Ok).
+Proof. exact g_complete. Qed.
+Print Assumptions c03_complete_general.
+
+(* "a text is accepted EXACTLY WHEN it is a well-formed aspif program in which every number lies inside the range of its field" *)
+Theorem c03_exact : forall t, (exists cs, read_all t = (cs, Ok)) <-> (exists a, gwf a = true /\ gin_range a = true /\ t = grender a).
+Proof. exact g_exact. Qed.
+Print Assumptions c03_exact.
+(* "... and on acceptance it delivers precisely the directives the text denotes, in order" *)
+Theorem c03_exact_calls : forall t cs, read_all t = (cs, Ok) <-> (exists a, gwf a = true /\ gin_range a = true /\ t = grender a /\ cs = gcalls a).
+Proof. exact g_exact_calls. Qed.
+Print Assumptions c03_exact_calls.
+
+(* any well-formed rendering with a field / code / step count out of range is rejected (general layouts) *)
+Theorem c03_rejects_general : forall a, gwf a = true -> gin_range a = false -> exists cs ln, read_all (grender a) = (cs, Err ln).
+Proof. exact g_rejects. Qed.
+Print Assumptions c03_rejects_general.
+
+(* what a text denotes does not depend on how it is split into program and layout *)
+Theorem c03_denotes_unique : forall a a', gwf a = true -> gin_range a = true -> gwf a' = true -> gin_range a' = true ->
+  grender a = grender a' -> gcalls a = gcalls a'.
+Proof. exact g_denotes_unique. Qed.
+Print Assumptions c03_denotes_unique.
+(* nor does "all fields in range": an out-of-range rendering is never also an in-range one *)
+Theorem c03_range_unique : forall a a', gwf a = true -> gwf a' = true -> grender a = grender a' -> gin_range a = gin_range a'.
+Proof. exact g_range_unique. Qed.
+Print Assumptions c03_range_unique.
+
+(* on texts without NUL bytes (where the stream abstraction is faithful to the C++) nothing but white space follows the last step *)
+Theorem c03_exact_text : forall t, ~ In 0 t ->
+  ((exists cs, read_all t = (cs, Ok)) <->
+   (exists a, gwf a = true /\ gin_range a = true /\ forallb is_ws (gp_trail a) = true /\ t = grender a)).
+Proof. exact g_exact_text. Qed.
+Print Assumptions c03_exact_text.
+
+(* ---- truncation.  cut_in_number p q: p ends with a digit and q begins with one (the cut splits a number: "asp 1 0 0\n0" is an
+   accepted prefix of the accepted "asp 1 0 0\n01 0 1 1 0 0\n0", see cut_in_number_matters).  gtrail_ok q: q is white space only. ---- *)
+(* TRUNCATED single-shot texts are rejected: cut an accepted non-incremental text anywhere - in the header, in a directive, in a
+   counted list, in a string, before or inside the terminating 0 - and the remaining prefix is rejected, unless only trailing
+   white space was removed or the cut splits a number *)
+Theorem c03_truncated : forall p q cs, read_all (p ++ q) = (cs, Ok) -> hd CBegin cs = CInit false ->
+  cut_in_number p q = false -> ~ In 0 p -> gtrail_ok q = false ->
+  exists cs' ln, read_all p = (cs', Err ln).
+Proof. exact g_truncated. Qed.
+Print Assumptions c03_truncated.
+(* the same about the description: such a prefix of a rendering is not the rendering of any in-range program *)
+Theorem c03_truncated_render : forall a p q, gwf a = true -> gin_range a = true -> gh_inc (gp_hdr a) = false ->
+  grender a = p ++ q -> ~ In 0 p -> cut_in_number p q = false -> gtrail_ok q = false ->
+  (exists cs ln, read_all p = (cs, Err ln)) /\ ~ (exists a', gwf a' = true /\ gin_range a' = true /\ p = grender a').
+Proof. exact g_truncated_render. Qed.
+Print Assumptions c03_truncated_render.
+(* conversely nothing but white space can be appended to an accepted single-shot text *)
+Theorem c03_no_extension : forall p q cs, read_all p = (cs, Ok) -> hd CBegin cs = CInit false ->
+  cut_in_number p q = false -> ~ In 0 p -> gtrail_ok q = false ->
+  exists cs' ln, read_all (p ++ q) = (cs', Err ln).
+Proof. exact g_no_extension. Qed.
+Print Assumptions c03_no_extension.
+(* every text (also incremental): if a prefix is accepted, its calls are delivered first, unchanged, for the whole text *)
+Theorem c03_prefix : forall p q cs, read_all p = (cs, Ok) -> cut_in_number p q = false ->
+  exists cs2 o, read_all (p ++ q) = (cs ++ cs2, o).
+Proof. exact g_prefix. Qed.
+Print Assumptions c03_prefix.
+
+(* WHICH prefixes of an accepted text are themselves accepted (any text, also incremental): exactly the text cut after one of its
+   complete steps, followed by white space - every other cut (inside the header, a directive, a later step, before a terminating 0)
+   leaves a rejected text, unless it splits a number *)
+Theorem c03_accepted_prefix : forall p q cs csp, read_all (p ++ q) = (cs, Ok) -> read_all p = (csp, Ok) ->
+  cut_in_number p q = false -> ~ In 0 p ->
+  exists a j ws, gwf a = true /\ gin_range a = true /\ p ++ q = grender a /\
+    (1 <= j <= length (gp_steps a))%nat /\ forallb is_ws ws = true /\
+    p = ghdr_r (gp_hdr a) ++ flat_map gstep_r (firstn j (gp_steps a)) ++ ws.
+Proof. exact g_accepted_prefix. Qed.
+Print Assumptions c03_accepted_prefix.
+
+(* the narrow description C03/Spec.v (c03_complete / c03_rejects above, C01's round trip) is a special case of the general one *)
+Theorem c03_spec_embeds : forall a, wf_layout a = true -> in_range a = true ->
+  exists g, gwf g = true /\ gin_range g = true /\ grender g = render a /\ gcalls g = calls a.
+Proof. exact spec_embeds. Qed.
+Print Assumptions c03_spec_embeds.
 
 (* non-vacuity: a laid-out text (tabs, CRLF, '+', leading zeros, comment, odd string separator, body code 2, two steps) *)
 Definition L (ws : list Z) (plus : bool) (z : nat) : lay := mkLay ws plus z.
@@ -89,3 +179,47 @@ Definition demo_bad : aprog :=
          [mkStep [ARule (L [] false 0) (sp, 0) (sp, [(sp, 18446744073709551617)]) sp (sp, [])] (L [10] false 0)] [10].
 Example demo_bad_rejected : wf_layout demo_bad = true /\ in_range demo_bad = false /\ exists cs ln, read_all (render demo_bad) = (cs, Err ln).
 Proof. split; [vm_compute; reflexivity|]. split; [vm_compute; reflexivity|]. apply c03_rejects; vm_compute; reflexivity. Qed.
+
+(* non-vacuity for the general description: leading blanks, "+01", "-0", "007", header ended by CR, tokens glued by signs
+   ("1+0-0+00 1-5+4"), string separator 'x' and the next count glued to the string, comment ended by CR, step end "-0",
+   three steps, CRLF, trailing white space *)
+Definition odd_text : list Z := [9; 32; 97; 115; 112; 32; 43; 48; 49; 32; 45; 48; 32; 48; 48; 55; 32; 32; 32; 105; 110; 99; 114; 101; 109; 101; 110; 116; 97; 108; 13; 49; 43; 48; 45; 48; 43; 48; 48; 32; 49; 45; 53; 43; 52; 32; 51; 120; 97; 98; 99; 48; 9; 49; 48; 32; 104; 101; 108; 108; 111; 32; 49; 32; 50; 13; 45; 48; 10; 53; 32; 49; 32; 50; 32; 48; 13; 10; 43; 48; 32; 10].
+Example odd_accepted : exists cs, read_all odd_text = (cs, Ok).
+Proof. eexists. vm_compute. reflexivity. Qed.
+Example odd_is_a_program : exists a, gwf a = true /\ gin_range a = true /\ odd_text = grender a.
+Proof. apply c03_exact. exact odd_accepted. Qed.
+(* an explicit general program: "-0" as a count, a weight glued by '+', NUL as string separator, junk after a NUL at the end *)
+Definition GL (ws : list Z) (sg : gsign) (z : nat) : glay := mkGLay ws sg z.
+Definition g0 := GL [] SgNone 0.
+Definition gsp := GL [32] SgNone 0.
+Definition gdemo : gprog :=
+  mkGProg (mkGHdr [] g0 gsp (gsp, 4294967295) 0 false [13])
+          [mkGStep [(g0, BWRule (GL [] SgPlus 0, 1) (GL [] SgMinus 2, []) (GL [9] SgNone 0) true (GL [] SgMinus 0, -7)
+                           (gsp, [((gsp, 3), (GL [] SgPlus 1, 2)); ((GL [] SgMinus 0, -4), (GL [] SgMinus 0, 0))]));
+                    (GL [] SgPlus 0, BTSym gsp (gsp, 0) (mkGStr gsp [0] [49; 50]));
+                    (g0, BComment [33] [13; 10])]
+                   g0]
+          [32; 0; 255; 49].
+Example gdemo_ok : gwf gdemo = true /\ gin_range gdemo = true.
+Proof. split; vm_compute; reflexivity. Qed.
+Example gdemo_accepted : read_all (grender gdemo) = (gcalls gdemo, Ok).
+Proof. apply c03_complete_general; apply gdemo_ok. Qed.
+
+(* non-vacuity of c03_truncated: cut off the terminating "0\n"; and the exception: a cut that splits a number *)
+Definition tr_p : list Z := [97; 115; 112; 32; 49; 32; 48; 32; 48; 10; 49; 32; 48; 32; 49; 32; 49; 32; 48; 32; 48; 10].   (* "asp 1 0 0\n1 0 1 1 0 0\n" *)
+Definition tr_q : list Z := [48; 10].                                       (* "0\n" *)
+Example truncated_nonvacuous :
+  (exists cs, read_all (tr_p ++ tr_q) = (cs, Ok) /\ hd CBegin cs = CInit false) /\ cut_in_number tr_p tr_q = false /\ ~ In 0 tr_p /\
+  gtrail_ok tr_q = false /\ exists cs' ln, read_all tr_p = (cs', Err ln).
+Proof.
+  assert (H : exists cs, read_all (tr_p ++ tr_q) = (cs, Ok) /\ hd CBegin cs = CInit false) by (eexists; split; vm_compute; reflexivity).
+  assert (Hn : ~ In 0 tr_p) by (vm_compute; intuition discriminate).
+  split; [exact H|]. split; [reflexivity|]. split; [exact Hn|]. split; [reflexivity|].
+  destruct H as (cs & H1 & H2). apply (c03_truncated tr_p tr_q cs H1 H2); [reflexivity | exact Hn | reflexivity].
+Qed.
+Example cut_in_number_matters :
+  (exists cs, read_all ([97; 115; 112; 32; 49; 32; 48; 32; 48; 10; 48]) = (cs, Ok)) /\ (exists cs, read_all ([97; 115; 112; 32; 49; 32; 48; 32; 48; 10; 48] ++ [49; 32; 48; 32; 49; 32; 49; 32; 48; 32; 48; 10; 48; 10]) = (cs, Ok)).
+Proof. split; eexists; vm_compute; reflexivity. Qed.
+(* a count that is not matched by the elements that follow: "3 2 5" announces two atoms, the terminating 0 is taken for the second *)
+Example count_mismatch_rejected : exists cs ln, read_all ([97; 115; 112; 32; 49; 32; 48; 32; 48; 10; 51; 32; 50; 32; 53; 10; 48; 10]) = (cs, Err ln).
+Proof. eexists; eexists; vm_compute; reflexivity. Qed.
